@@ -178,7 +178,7 @@ PARAM_WORDS = ('note=1', 'note=', 'note', '=1', 'note=abc', 'note=128',
                'data=(1)', 'time=1.5', 'time=abc', 'time=-2', 'time=1e3',
                'pitch=-8192', 'pitch=8192', 'pos=16383', 'note=0x10',
                'note=1=2', 'type=clock', 'time=', 'data=', 'data=(1,2)x',
-               'data=x(1,2)')
+               'data=x(1,2)', 'skip_checks=1', 'skip_checks=0', 'note=999')
 
 
 def ref_parse_line(text):
